@@ -151,6 +151,7 @@ type chain6 struct {
 	ev        gen.EventSpec
 	lvl       zerolog.Level
 	nestedErr bool // the event also records an error inside a nested dictionary and inside an array of objects
+	extras    bool // a discarded event may precede it (not on workers that may log through the counting shared sampler)
 }
 
 type errObj6 struct{}
@@ -254,7 +255,7 @@ func c06run(out *evid.Out, f *evid.Flags, run int) {
 				// the second event of a request is at error level: it releases what the first one may have left held
 				ev.Entry, ev.Level, ev.Err = "WithLevel", zerolog.ErrorLevel, nil
 			}
-			chains[w] = append(chains[w], chain6{id: fmt.Sprintf("w%d-%d", w, i), ev: ev, lvl: ev.Level, nestedErr: cr.Chance(1, 3)})
+			chains[w] = append(chains[w], chain6{id: fmt.Sprintf("w%d-%d", w, i), ev: ev, lvl: ev.Level, nestedErr: cr.Chance(1, 3), extras: w%4 != 0})
 		}
 	}
 	mkDest := func(delay int) (root io.Writer, recs []*cw6) {
@@ -316,6 +317,17 @@ func c06run(out *evid.Out, f *evid.Flags, run int) {
 					viol("panic-entry", fmt.Sprintf("chain %s: Logger.Panic()...%s ended with recover() = %v (%T), specified: panics with the message string", c.id, c.ev.Fin, r, r))
 				}
 			}()
+		}
+		if c.extras && c.nestedErr == (len(c.id)%2 == 0) {
+			// an event that is discarded (outside any hook) and finalized all the same: it never reaches the destination,
+			// and it leaves nothing behind for the events that follow
+			if len(c.id)%3 == 0 {
+				d := l.Info().Str(idKey, "discarded-"+c.id)
+				d.Discard()
+				d.Str("more", "x").Msg("never written")
+			} else {
+				l.Warn().Str(idKey, "discarded-"+c.id).Func(func(e *zerolog.Event) { e.Discard() }).Msg("never written")
+			}
 		}
 		e := gen.StartEvent(l, &c.ev).Str(idKey, c.id)
 		for _, op := range c.ev.Ops {
